@@ -185,6 +185,14 @@ def check_loop(ctx, make_reg, X, kw, shape_u, shape_p, u0, p0, u_name='U', p_nam
     atol = ctx.rng.choice([0, Fraction(1, 8), Fraction(1, 2)])
     script, rows = gen_script(ctx.rng, shape_u, shape_p, max_iter)
     reg = make_reg(max_iter=max_iter, iter_atol=float(atol), iter_rtol=0)
+    if ctx.rng.random() < 0.4:
+        # the SAME instance has been fitted before (another scripted run): the loop observed below must still start
+        # from its documented initial values - the model is always the fresh machine
+        pre, _ = gen_script(ctx.rng, shape_u, shape_p, max_iter)
+        if pre.stop_at is None:
+            with scripted(pre, u_name, p_name):
+                reg.fit(X, **kw)
+            ctx.count('loop:re-used instance')
     with scripted(script, u_name, p_name):
         reg.fit(X, **kw)
     line = loop_line(rows, script.stop_at, max_iter, atol, 0)
